@@ -30,7 +30,7 @@ theorem framesCount_cons (a : SCodeAttr) (as : List SCodeAttr) :
   cases isFramesAttr a <;> simp <;> omega
 
 theorem framesOf_cons_not (a : SCodeAttr) (as : List SCodeAttr) (h : isFramesAttr a = false) : framesOf (a :: as) = framesOf as := by
-  cases a <;> simp [framesOf, isFramesAttr] at h ⊢
+  cases a <;> simp [framesOf, SCodeAttr.isFrames] at h ⊢
 
 theorem framesOf_none (as : List SCodeAttr) (h : framesCount as = 0) : framesOf as = [] := by
   induction as with
@@ -74,7 +74,7 @@ theorem readCodeAttrs_ok (p : Pool) (pos : Nat → Nat) (n cl : Nat) (hp : PosOk
       | true => simp [hia] at hone; omega
       | false =>
         have e : st1.frames = st.frames := by
-          cases a <;> simp [isFramesAttr] at hia <;> simpa using this
+          cases a <;> simp [SCodeAttr.isFrames] at hia <;> simpa using this
         rw [e] at h
         have := hfr h
         simp [hia] at this
@@ -98,18 +98,18 @@ theorem readCodeAttrs_ok (p : Pool) (pos : Nat → Nat) (n cl : Nat) (hp : PosOk
       cases hia : isFramesAttr a with
       | true =>
         have hz : framesCount as = 0 := by simp [hia] at hone; omega
-        cases a <;> simp [isFramesAttr] at hia
+        cases a <;> simp [SCodeAttr.isFrames] at hia
         simp [hz, e5, framesOf]
       | false =>
         have e : st1.frames = st.frames := by
-          cases a <;> simp [isFramesAttr] at hia <;> simpa using e5
+          cases a <;> simp [SCodeAttr.isFrames] at hia <;> simpa using e5
         rw [framesOf_cons_not a as hia, e]
         simp
 
 /-- the raw (label-id) form of what `read_code` delivers for a layout, relative to the final label table -/
 def Spec.CodeLayout.raw (c : CodeLayout) (lf : Labels) : Code :=
   { maxStack := c.maxStack, maxLocals := c.maxLocals,
-    insns := entriesFrom lf c.pos 0 c.insns,
+    insns := entriesFrom lf c.pos (framesOf c.attrs) 0 c.insns,
     exceptions := c.exceptions.map (fun e => ⟨labOf lf c.pos e.start, labOf lf c.pos e.end_, labOf lf c.pos e.handler, e.catch_⟩),
     lastLabel := lf.get (c.pos c.insns.length),
     lines := linesRaw lf c.pos c.attrs, locals := localsRaw lf c.pos c.attrs, rvta := [], ritva := [],
@@ -155,6 +155,33 @@ theorem legal_targets_lt (p : Pool) (bsms : Option (List Bsm)) (n : Nat) (pos : 
     · exact (hl'.2 kt hkt).1
   | _ => simp [targetsOf] at ht
 
+theorem framesLegal_increasing (p : Pool) (n : Nat) (pos : Nat → Nat) (prev : Option Nat) (fs : List SFrame)
+    (h : framesLegal p n pos prev fs) : Increasing (match prev with | none => 0 | some i => i + 1) fs ∧ ∀ f ∈ fs, f.at_ < n := by
+  induction fs generalizing prev with
+  | nil => exact ⟨trivial, by simp⟩
+  | cons f fs ih =>
+    obtain ⟨h1, h2, _, _, h5⟩ := h
+    obtain ⟨i1, i2⟩ := ih (some f.at_) h5
+    refine ⟨⟨?_, i1⟩, ?_⟩
+    · cases prev with
+      | none => exact Nat.zero_le _
+      | some i => exact h2
+    · intro g hg
+      rcases List.mem_cons.mp hg with rfl | hg
+      · exact h1
+      · exact i2 g hg
+
+theorem framesOf_mem (as : List SCodeAttr) (f : SFrame) (hf : f ∈ framesOf as) : ∃ nc fs, SCodeAttr.frames nc fs ∈ as ∧ f ∈ fs ∧ framesOf as = fs := by
+  induction as with
+  | nil => simp [framesOf] at hf
+  | cons a as ih =>
+    cases a with
+    | frames nc fs => exact ⟨nc, fs, by simp, by simpa [framesOf] using hf, rfl⟩
+    | lines _ _ => obtain ⟨nc, fs, h1, h2, h3⟩ := ih (by simpa [framesOf] using hf); exact ⟨nc, fs, by simp [h1], h2, by simpa [framesOf] using h3⟩
+    | lvt _ _ => obtain ⟨nc, fs, h1, h2, h3⟩ := ih (by simpa [framesOf] using hf); exact ⟨nc, fs, by simp [h1], h2, by simpa [framesOf] using h3⟩
+    | lvtt _ _ => obtain ⟨nc, fs, h1, h2, h3⟩ := ih (by simpa [framesOf] using hf); exact ⟨nc, fs, by simp [h1], h2, by simpa [framesOf] using h3⟩
+    | unknown _ _ _ => obtain ⟨nc, fs, h1, h2, h3⟩ := ih (by simpa [framesOf] using hf); exact ⟨nc, fs, by simp [h1], h2, by simpa [framesOf] using h3⟩
+
 theorem sum_targets_length (pos : Nat → Nat) (xs : List SInsn) :
     (targetOffsets pos xs).length = (xs.map (fun si => (targetsOf si.insn).length)).sum := by
   induction xs with
@@ -181,6 +208,7 @@ theorem readCode_encode (p : Pool) (bsms : Option (List Bsm)) (c : CodeLayout) (
     · exact Nat.le_of_lt (codePos_mono c.insns a b h hb)
     · have : a = b := by omega
       subst this; exact Nat.le_refl _
+  have hmonoS : ∀ a b, a < b → b ≤ c.insns.length → c.pos a < c.pos b := fun a b hab hb => codePos_mono c.insns a b hab hb
   have hrefs := hleg.refs
   unfold CodeLayout.labelRefs at hrefs
   -- pass 1
@@ -224,9 +252,10 @@ theorem readCode_encode (p : Pool) (bsms : Option (List Bsm)) (c : CodeLayout) (
   rw [sum_targets_length] at hcnt1
   simp only [Labels.new, Nat.zero_add] at hcnt1
   -- attributes
-  obtain ⟨st, h3, hwf3, hle3, hf3, hrv3, hri3, ha3, hr3, hl3⟩ := readCodeAttrs_ok p c.pos c.insns.length (c.pos c.insns.length) hp hmono c.attrs hleg.attrs
-    ⟨l2, none, none, none, [], [], []⟩ r hwf2 (hle2.1.symm.trans hcl1) (by simp only []; omega)
-  simp only [] at hle3 hf3 hrv3 hri3 ha3 hl3 hr3
+  obtain ⟨st, h3, hwf3, hle3, hrv3, hri3, ha3, hr3, hl3⟩ := readCodeAttrs_ok p c.pos c.insns.length (c.pos c.insns.length) hp hmono hmonoS
+    c.attrs hleg.attrs ⟨l2, none, none, none, [], [], []⟩ r hwf2 (hle2.1.symm.trans hcl1) (by simp only []; omega)
+    (by simpa [framesCount] using hleg.oneFrames) (by simp)
+  simp only [] at hle3 hrv3 hri3 ha3 hl3 hr3
   have hlf := hl3 st.labels (Labels.Le.refl _)
   -- pass 2
   have hlab : ∀ i (h : i < c.insns.length), TargetsLabelled st.labels c.pos c.insns[i].insn := by
@@ -238,12 +267,31 @@ theorem readCode_encode (p : Pool) (bsms : Option (List Bsm)) (c : CodeLayout) (
     cases hg : l1.get (c.pos t) with
     | none => simp [hg] at this
     | some id => rw [(hle2.trans hle3).2 _ _ hg]; rfl
-  have hp2 := pass2_suffix p bsms c.insns hcode st.labels hlab [] c.insns rfl (c.pos c.insns.length) (by
+  -- the frames the loop left, and their labels
+  have hfrs : st.frames.getD [] = framesRaw st.labels c.pos (framesOf c.attrs) := by
+    have := hlf.2.2
+    by_cases hz : framesCount c.attrs = 0
+    · simp only [hz, if_true, Option.getD_none] at this
+      rw [this, framesOf_none c.attrs hz]; rfl
+    · simp only [hz, if_false] at this; exact this
+  have hframes : Increasing 0 (framesOf c.attrs) ∧ ∀ f ∈ framesOf c.attrs, f.at_ < c.insns.length ∧ (st.labels.get (c.pos f.at_)).isSome = true := by
+    cases hfo : framesOf c.attrs with
+    | nil => exact ⟨trivial, by simp⟩
+    | cons f0 rest =>
+      obtain ⟨nc, fs, hm, _, hfs⟩ := framesOf_mem c.attrs f0 (by rw [hfo]; simp)
+      have hla := hleg.attrs _ hm
+      simp only [SCodeAttr.Legal] at hla
+      obtain ⟨i1, i2⟩ := framesLegal_increasing p c.insns.length c.pos none fs hla.2.2.2.1
+      rw [← hfo, hfs]
+      refine ⟨i1, fun f hf => ⟨i2 f hf, hr3 _ ?_⟩⟩
+      simp only [List.mem_flatMap]
+      exact ⟨_, hm, by simp only [attrRefs, List.mem_flatMap]; exact ⟨f, hf, by simp⟩⟩
+  have hp2 := pass2_suffix p bsms c.insns hcode st.labels hwf3 hlab [] c.insns rfl (c.pos c.insns.length) (by
     have := endPos_ge c.insns 0
     show c.insns.length ≤ codePos c.insns c.insns.length
-    unfold codePos; rw [List.take_length]; omega) []
+    unfold codePos; rw [List.take_length]; omega) [] (framesOf c.attrs) hframes.1 hframes.2 st.frames hfrs
   simp only [List.length_nil, codePos_zero, List.reverse_nil, List.nil_append] at hp2
-  change pass2 p bsms st.labels _ none [] (0, encInsns c.pos c.insns 0) = ok (entriesFrom st.labels c.pos 0 c.insns) at hp2
+  change pass2 p bsms st.labels _ st.frames [] (0, encInsns c.pos c.insns 0) = ok (entriesFrom st.labels c.pos (framesOf c.attrs) 0 c.insns) at hp2
   refine ⟨st.labels, hwf3, (hle3.1.symm.trans (hle2.1.symm.trans hcl1)), ?_, ?_⟩
   · intro pc hpc
     simp only [CodeLayout.refOffsets, List.mem_append] at hpc
@@ -268,7 +316,7 @@ theorem readCode_encode (p : Pool) (bsms : Option (List Bsm)) (c : CodeLayout) (
   show readCode p bsms (c.encode ++ r) = ok (c.raw st.labels, r)
   simp only [readCode, CodeLayout.encode, List.append_assoc, u16_be16 _ hms, u16_be16 _ hml, u32_be32 _ hcl32, ok_bind,
     hne0, Bool.false_eq_true, if_false, htake, hp1, hc1, u16_be16 _ hleg.nExc, h2',
-    u16_be16 _ hleg.nAttrs, h3, hf3, hp2, pure_eq]
+    u16_be16 _ hleg.nAttrs, h3, hp2, pure_eq]
   simp only [CodeLayout.raw, hv2 st.labels hle3, hlf.1, hlf.2, appendOpt_none_left, hrv3, hri3, ha3, List.nil_append]
 
 end ClassRead
